@@ -43,6 +43,10 @@ class Gram:
             for i, (l, rhs) in enumerate(self.prods):
                 if l == nt:
                     a = " ".join(rhs) if rhs else "EMPTY"
+                    if rhs and getattr(self, "sprinkle_empty", 0) and (i * 7 + len(rhs)) % 3 == 0:
+                        # an unnamed EMPTY next to other symbols contributes nothing (grammar language): same grammar
+                        k = (i + self.sprinkle_empty) % (len(rhs) + 1)
+                        a = " ".join(rhs[:k] + ["EMPTY"] + rhs[k:])
                     if self.prod_meta.get(i):
                         a += " {" + ", ".join(self.prod_meta[i]) + "}"
                     alts.append(a)
@@ -384,6 +388,8 @@ def random_grammar(rng, max_nts=4, max_alts=3, max_rhs=4, nterm=3, p_empty=0.15,
         terms = {tnames[0]: chars[0]}
         prods.append((nts[0], [tnames[0]]))
     g = Gram(prods, terms, layout=layout)
+    if rng.random() < 0.15:
+        g.sprinkle_empty = rng.randint(1, 5)
     if layout is not None and rng.random() < 0.25:
         g.layout_name = rng.choice(["layout", "LAYOUT", "LayOut"])
     return g
